@@ -135,6 +135,8 @@ def matchRangeLoop (text : Bytes) (s : VMState) (lo hi : Bytes) (neg : Bool) : N
   | k + 1 =>
     let i := lo.length + k
     let v := readAt text s.core.pos i
+    -- fewer than `i` bytes are left: `not` must not succeed on nothing (fix f73d71e)
+    if v == [] then matchRangeLoop text s lo hi neg k else
     if (inRange lo hi v && !neg) || (!(inRange lo hi v) && neg) then s.consumeNext text i
     else matchRangeLoop text s lo hi neg k
 
@@ -175,6 +177,7 @@ def VMState.matchClass (text : Bytes) (s : VMState) (c : Class) (neg : Bool) : S
   | .lower => s.matchRange text [97] [122] neg
   | .letter =>
     let v := readAt text pos 1
+    if v == [] then s.backtrack else
     if inRange [97] [122] v || inRange [65] [90] v then
       (if neg then s.backtrack else s.consumeNext text 1)
     else (if neg then s.consumeNext text 1 else s.backtrack)
